@@ -401,8 +401,9 @@ func (g *docGen) fragment(typeName string, depth int, keys map[string]bool) mode
 	}
 	named := g.r.Intn(2) == 0
 	if named {
-		// sometimes reuse an existing fragment on the same condition whose keys are free here
-		if g.r.Intn(3) == 0 {
+		// often reuse an existing fragment on the same condition whose keys are free here (one fragment reached by several
+		// routes: from two operations, from two fragments, twice from the same fragment at different depths)
+		if g.r.Intn(2) == 0 {
 			for _, fr := range g.d.Frags {
 				if _, done := g.fragKey[fr.Name]; !done || fr.Cond != cond {
 					continue
